@@ -131,9 +131,7 @@ func VerifH04() {
 	w := newWorld(stdConfig(), []string{"a", "b"})
 	w.vlen = 2 // two-byte contents: a crash can tear them
 	a := alpha{tx: true, gc: true, drain: true, maxTx: 1, levels: []model.TxIsoLevel{fs_db.IsoLevelReadCommitted, fs_db.IsoLevelSerializable}}
-	if nd.Tier() == 0 {
-		w.stepKeys = []string{"a"} // the workload writes key a; key b is written by the prepared transaction only
-	}
+	w.stepKeys = []string{"a"} // the workload writes key a; key b is written by the prepared transaction only
 	// a pre-state with history: optionally a committed value, optionally a transaction that has
 	// already written one or both keys (its records are durable but uncommitted)
 	switch nd.Choice("pre-committed", 3) {
@@ -216,7 +214,7 @@ func VerifH04b() {
 	v1, v2 := w.freshVal(), w.freshVal()
 	del2 := nd.Choice("second-writer-deletes", 2) == 1
 	var e1, e2 error
-	nd.SpawnRunsFirst(true)
+	nd.SpawnRunsFirst(P == 1) // with two preemptions both shapes are within the bound anyway
 	nd.SetPreemptionBound(P)
 	go func() {
 		if del2 {
